@@ -170,6 +170,14 @@ class Database:
             logger.info(
                 "Applying migration version %d (%s)", idx, migration.__name__
             )
+            # NOTE: sqlite3 does not open a transaction for DDL statements by
+            #       itself: every `create table` / `alter table` of a migration
+            #       would be committed on its own. If the server died half way
+            #       through, the next start would run the migration again and
+            #       fail on the tables that already exist. Apply the migration
+            #       and record its version as one transaction.
+            #
+            await self.conn.execute("BEGIN")
             await migration(self.conn)
             await self.execute(
                 "insert into versions (version) values (?)",
